@@ -33,8 +33,11 @@ type World struct {
 	Root, Parser, Token, Stdlib, JSON *packages.Package
 
 	NumFuncs int
+	NumFiles int
 	GOOS     string
 	GOARCH   string
+	Ignored  []string // non-test Go files of the module excluded by build constraints in this load (generator tabled)
+	ExtraEnv []string // build configuration overrides (GOARCH=386, GOOS=windows) of this load
 }
 
 func loadWorld(repo string, extraEnv ...string) (*World, error) {
@@ -67,7 +70,7 @@ func loadWorld(repo string, extraEnv ...string) (*World, error) {
 	if len(pkgs) < 5 {
 		return nil, fmt.Errorf("only %d packages loaded from %s (expected the whole module)", len(pkgs), abs)
 	}
-	w := &World{RepoDir: abs, Fset: fset, All: pkgs, ByPath: map[string]*packages.Package{}}
+	w := &World{RepoDir: abs, Fset: fset, All: pkgs, ByPath: map[string]*packages.Package{}, ExtraEnv: extraEnv}
 	var errs []string
 	for _, p := range pkgs {
 		for _, e := range p.Errors {
@@ -79,6 +82,13 @@ func loadWorld(repo string, extraEnv ...string) (*World, error) {
 		w.ByPath[p.PkgPath] = p
 		if p.Module != nil && w.ModPath == "" {
 			w.ModPath = p.Module.Path
+		}
+		w.NumFiles += len(p.Syntax)
+		for _, f := range p.IgnoredFiles {
+			b := filepath.Base(f)
+			if strings.HasSuffix(b, ".go") && !strings.HasSuffix(b, "_test.go") && b != "gensrcmods.go" { // gensrcmods.go: `+build ignore` generator program
+				w.Ignored = append(w.Ignored, b)
+			}
 		}
 		for _, f := range p.Syntax {
 			for _, d := range f.Decls {
